@@ -535,9 +535,57 @@ def c07(tier, replay=None):
                               {"value": vals[vi] if len(json.dumps(vals[vi])) < 5000 else "(large)", "write": w, "read": r})
             else:
                 nok += 1
+    # reads while memory is short: each allocation of the reading call fails in turn; a read that nevertheless reports
+    # success must present the stored value, all of it (what the call reports when it fails is C17's subject)
+    fbin = build("fault")
+    short = [v for v in extra if v.get("k") == "numb" or (v.get("k") in ("list", "table") and 0 < len(v.get("e", [])) <= 5)] + leaves
+    short += [{"k": "char", "t": "x" * 600, "q": 1}, {"k": "char", "t": "", "q": 1}]
+    short = list({json.dumps(v, sort_keys=True): v for v in short}.values())
+    if tier == "quick":
+        short = short[:60]
+    KMAX = 14 if tier == "quick" else 30
+    def run_short(ch):
+        cmds, spans = [], []
+        for v in ch:
+            cs = [{"op": "cif_create", "cif": "c"}, {"op": "create_block", "cif": "c", "code": "b", "h": "h"}, {"op": "value_build", "v": "v0", "val": v}, {"op": "value_dump", "v": "v0"},
+                  {"op": "set_value", "cont": "h", "name": "_V", "vh": "v0"},
+                  {"op": "create_loop", "cont": "h", "category": "k", "names": ["_a"], "h": "l"}, {"op": "loop_add_packet", "loop": "l", "packet": [["_a", {"k": "na"}]]},
+                  {"op": "loop_add_item", "loop": "l", "name": "_w", "vh": "v0"}, {"op": "value_free", "v": "v0"}]
+            for k in range(1, KMAX + 1):
+                cs.append({"op": "get_value", "cont": "h", "name": "_v", "fail_at": k, "fail_kinds": 1})
+            for k in range(1, KMAX + 1):
+                cs += [{"op": "get_packets", "loop": "l", "itr": "j"}, {"op": "itr_next", "itr": "j", "fail_at": k, "fail_kinds": 1}, {"op": "itr_abort", "itr": "j"}]
+            cs.append({"op": "reset"})
+            spans.append((len(cmds), len(cmds) + len(cs))); cmds += cs
+        return ch, spans, run_cifrun(fbin, cmds, timeout=900)
+    nshort = nshort_ok = nfired_ok = 0
+    for ch, spans, rr in pmap(run_short, [short[i:i + 10] for i in range(0, len(short), 10)]):
+        for v, (a, b) in zip(ch, spans):
+            if b > len(rr.outs):
+                if a <= len(rr.outs):
+                    rep.violation("abnormal termination %s (read while memory is short)" % sanitizer_signature(rr.stderr), "did not return: value %s" % json.dumps(v)[:200], {"value": v, "stderr": rr.stderr[:3000]})
+                continue
+            o = rr.outs[a:b]
+            orig = full(o[3].get("val"))
+            if any(x.get("rc", 0) != 0 for x in o[4:8]):
+                raise Infra("C07 reads while memory is short: could not store %s: %s" % (json.dumps(v)[:100], json.dumps(o[4:8])[:300]))
+            for x in o[9:]:
+                if x.get("op") not in ("get_value", "itr_next") or "fired" not in x:
+                    continue
+                nshort += 1
+                if x.get("rc") != 0:
+                    continue
+                got = full(x.get("v")) if x["op"] == "get_value" else next((full(y) for n, y in x.get("pkt", []) if n == "_w"), None)
+                if got != orig:
+                    rep.violation("%s via %s while memory is short: read back differs" % (v.get("k"), x["op"]),
+                                  "value %s: %s reports success%s and presents %s, stored %s" % (json.dumps(v)[:200], x["op"], (" (allocation %d at %s failed)" % (x.get("allocs", 0), x.get("site"))) if x.get("fired") else "",
+                                                                                      json.dumps(got)[:300], json.dumps(orig)[:300]), {"value": v, "read": x["op"], "site": x.get("site")})
+                else:
+                    nshort_ok += 1
+                    nfired_ok += 1 if x.get("fired") else 0
     rep.samples = [{"value": vals[i], "routes": "x".join([WRITES[i % 4], READS[i % 3]])} for i in (1, nmodel // 2, nmodel + 3)]
-    log("[C07] values %d (model %d + sizes %d), cases %d ok %d" % (len(vals), nmodel, len(extra), len(cases), nok))
+    log("[C07] values %d (model %d + sizes %d), cases %d ok %d; reads while memory is short %d (successful and identical %d, of which after a failed allocation %d)" % (len(vals), nmodel, len(extra), len(cases), nok, nshort, nshort_ok, nfired_ok))
     return rep.finish({"states": st["distinct"], "transitions": st["generated"], "traces_validated_against_impl": nok, "values_from_model": nmodel, "values_beyond_model_bounds": len(extra),
-                       "write_routes": WRITES, "read_routes": READS, "cases": len(cases), "exhaustive": tier != "quick",
+                       "write_routes": WRITES, "read_routes": READS, "cases": len(cases), "exhaustive": tier != "quick", "reads_while_memory_is_short": nshort,
                        "explanation": "every distinct value tree reachable in CifValue.tla within its bounds (depth 2, width 2, all kinds, key spellings) plus size classes beyond them, crossed with 4 write and 3 read routes; the caller's object is mutated and freed between write and read; the read-back (kind, text, quoted, digits, su, scale, double bits, order, keys in their spelling) must equal the object as it was when stored"},
                       ["the parse write-route is covered by C01 (documents with denotation); the oracle here is identity with the stored object's own attributes"])
